@@ -635,10 +635,11 @@ func terminateOrphanedInstances(n *NodeGroup, instances []*string) {
 	}
 	log.WithField("asg", n.id).Infof("terminating %v instance(s) that could not be attached to the ASG", numInstances)
 
-	var instanceIds []string
 	for i := 0; i < numInstances; i += terminateBatchSize {
 		batch := instances[i:minInt(i+terminateBatchSize, numInstances)]
 
+		// each call carries only its own batch
+		instanceIds := make([]string, 0, len(batch))
 		for _, id := range batch {
 			instanceIds = append(instanceIds, *id)
 		}
